@@ -1,4 +1,8 @@
 import BalmProofs.Props.C15
 #print axioms Balm.SDm.expandOneLimited_inv
 #print axioms Balm.SDm.plain_history_inv
+#print axioms Balm.Props.C04.plain_history_inv
 #print axioms Balm.Props.C04.expandBfs_inv
+#print axioms Balm.Props.C04.expandDfs_inv
+#print axioms Balm.Props.C04.expandToTarget_inv
+#print axioms Balm.Props.C04.expandMinimal_inv
